@@ -109,6 +109,17 @@ func classifyExternal(fn *ssa.Function) (extClass, string) {
 	case "github.com/go-errors/errors":
 		return extPure, full
 	case "reflect":
+		// the read-only part of the API: types and values are inspected, nothing is written or created that outlives the call.
+		// MapKeys returns the keys in unspecified order: its call sites are checked against a table (ND-1).
+		switch name {
+		case "TypeOf", "ValueOf",
+			"(Value).Kind", "(Value).IsNil", "(Value).Elem", "(Value).Len", "(Value).Type", "(Value).String", "(Value).Index",
+			"(Value).MapIndex", "(Value).MapKeys", "(Value).Interface", "(Value).Convert", "(Value).IsValid", "(Value).NumField", "(Value).Field":
+			return extPure, full
+		}
+		if strings.HasPrefix(name, "(rtype).") || strings.HasPrefix(name, "(*rtype).") || strings.HasPrefix(name, "(Type).") {
+			return extPure, full
+		}
 		return extUnclassified, full
 	}
 	if purePkgs[pkg] {
